@@ -130,6 +130,14 @@ def one_arg(draw):
 
 
 simple_arg = st.sampled_from(SIMPLE_WORDS).map(lambda w: {'k': 'str', 'frs': [['n', [['t', w]]]]})
+# arguments appended to a SHELL command through a reference: the denoted string becomes part of the command line
+# ("passed as a single string to the operating system's shell"), so the shell divides it into words.
+# (style of the quoted token, its text, the words a POSIX shell makes of that text)
+SHELL_APPENDED = [('h', 'two words', ['two', 'words']), ('h', '"q r"', ['q r']), ('s', "'s t'", ['s t']),
+                  ('h', 'a\\ b', ['a b']), ('h', '', []), ('s', 'x   y', ['x', 'y']), ('h', '"" e', ['', 'e']),
+                  ('s', "k'l m'n", ['kl mn'])]
+shell_appended_arg = st.sampled_from(SHELL_APPENDED).map(
+    lambda t: {'k': 'str', 'frs': [[t[0], [['t', t[1]]]]], 'shwords': list(t[2])})
 
 
 @st.composite
@@ -147,7 +155,8 @@ def last_arg(draw):
 def arg_list(draw, simple=False, max_size=4):
     """-> dict(args, last, cont)"""
     if simple:
-        return {'args': draw(st.lists(simple_arg, max_size=3)), 'last': None, 'cont': None}
+        return {'args': draw(st.lists(simple_arg | simple_arg | shell_appended_arg, max_size=3)), 'last': None,
+                'cont': None}
     args = draw(st.lists(one_arg(), max_size=max_size))
     cont = draw(st.integers(1, 3)) if len(args) >= 2 and draw(st.integers(0, 4)) == 0 else None
     return {'args': args, 'last': draw(last_arg()), 'cont': cont}
